@@ -552,8 +552,11 @@ fn driver(p: &'static dyn Prop, tier: Tier) -> i32 {
                         // (responses hold hash sets and maps, e.g. Unreal 2 mutators, whose iteration order differs from
                         // process to process: what is compared is the multiset of tokens of the observation, not their order)
                         let tokens = |s: &str| -> String {
-                            let mut t: Vec<&str> = s.split(|c: char| !c.is_alphanumeric() && c != '_' && c != '-' && c != '.').filter(|x| !x.is_empty()).collect();
+                            // (measured durations differ from run to run: digits are compared as a class)
+                            let masked: String = s.chars().map(|c| if c.is_ascii_digit() { '0' } else { c }).collect();
+                            let mut t: Vec<&str> = masked.split(|c: char| !c.is_alphanumeric() && c != '_' && c != '-').filter(|x| !x.is_empty()).collect();
                             t.sort_unstable();
+                            t.dedup();
                             t.join(" ")
                         };
                         let mut obs: Vec<(String, String)> = vs.into_iter().map(|v| (v.class, tokens(&v.observed))).collect();
